@@ -118,12 +118,21 @@ func (c05) Exec(ctx *core.Ctx, cs *core.Case) {
 		ctx.Count("start_disagrees_with_model(C01)")
 		return
 	}
+	// Observation modes (per case): 0/1 every getter after every step (and the serialization
+	// before it); 2 nothing is read until the history has ended; 3 after each step exactly ONE
+	// getter is read, everything at the end.  A setter that leaves derived state stale until
+	// some other getter refreshes it is invisible in mode 0.
+	mode := int(cs.Hash() % 4)
+	ctx.Count(fmt.Sprintf("observation_mode_%d", mode))
 	applied := 0
 	for i, op := range cs.Ops {
 		if !obs.IsSetter(op.Name) {
 			continue
 		}
-		before := u.Href(false)
+		before := mu.Href(false)
+		if mode <= 1 {
+			before = u.Href(false)
+		}
 		v := op.Arg(0)
 		if pan := ctx.Call(len(v)+len(before), func() { obs.ApplySetter(u, op.Name, v) }); pan != nil {
 			ctx.Nontrivial()
@@ -133,7 +142,27 @@ func (c05) Exec(ctx *core.Ctx, cs *core.Case) {
 		M.ApplySetter(mu, op.Name, v)
 		applied++
 		ctx.Count("set:" + op.Name)
-		want, got := mu.Ten(), obs.TakeTen(u)
+		last := true
+		for _, later := range cs.Ops[i+1:] {
+			if obs.IsSetter(later.Name) {
+				last = false
+			}
+		}
+		want := mu.Ten()
+		if mode == 3 && !last {
+			k := int((cs.Hash()>>8 + uint64(i)*7) % 10)
+			if got := obs.GetTen(u, k); got != want[k] {
+				ctx.Nontrivial()
+				ctx.Violate("a getter read alone after a setter differs from the standard's setter steps", want[k], got,
+					fmt.Sprintf("step %d: %s on %q: %s read first", i, op, before, refmodel.TenNames[k]))
+				return
+			}
+			continue
+		}
+		if mode == 2 && !last {
+			continue
+		}
+		got := obs.TakeTen(u)
 		if want != got {
 			ctx.Nontrivial()
 			ctx.Violate("setter result differs from the standard's setter steps", want, got,
